@@ -1,6 +1,7 @@
 """C08 — grid landscapes within half a step; exact->grid sampling; transformer; death vector."""
 import numpy as np
 
+from .. import forms as vforms
 from ..oracles import landscape as OL
 from ..util import scale_of
 from .C03 import gen_bars, overlapping, far_or_tiny, tolerance
@@ -175,6 +176,19 @@ def run_case(ctx, k, rng):
                       int_shape=vi.shape, float_shape=vals.shape)
         except Exception as e:
             ctx.exception("integer diagram == float diagram of the same values", e)
+    if vals is not None and rng.random() < 0.15:
+        # the same diagram in another memory layout must give the same samples
+        try:
+            ctx.ran()
+            import io, contextlib
+            arg, nm = vforms.relayout(rng, bars)
+            with contextlib.redirect_stdout(io.StringIO()):
+                Al = PLA(start=start, stop=stop, num_steps=num, dgms=dgms[:hom] + [arg] + dgms[hom + 1:], hom_deg=hom)
+            vl = depth_rows(Al.values)
+            ctx.check("another memory layout of the diagram gives the same samples", vl.shape == vals.shape and np.array_equal(vl, vals),
+                      layout=nm, shape=vl.shape, float_shape=vals.shape)
+        except Exception as e:
+            ctx.exception("another memory layout of the diagram gives the same samples", e)
     sub = int(rng.integers(0, 3))
     if sub == 0:
         # ---- exact -> grid sampling ---------------------------------------------------------------------------
